@@ -1,7 +1,7 @@
 """C20 Switching the session keyspace is applied everywhere or reported (W-FULL)."""
 from dsim import seams
 from dsim.core import HarnessError
-from props.common import gen_strategy, quiet_logging, Violations
+from props.common import gen_stalls, gen_strategy, quiet_logging, Violations
 from worlds.reqpath import make_legacy, ReqPathRun, base_plan, RETRY_NEXT_HOST
 from worlds.full import ReqObs
 
@@ -57,6 +57,7 @@ def gen_plan(rng, tier):
         p['requests'].append({'plan': order, 'idempotent': True, 'decisions': [[RETRY_NEXT_HOST, None]] * 2})
     p['knobs'] = {'orphaned_threshold': 2, 'max_in_flight': 64}
     p.update(strategy=gen_strategy(rng), line_p=rng.choice([0, 0, 0.01]), points=rng.choice([0, 2]), time_jump_p=0)
+    p.update(gen_stalls(rng, ['_set_keyspace_for_all_pools', '_set_keyspace_for_all_conns', '_replace', 'set_keyspace_async'], 0.25))
     if rng.random() < 0.2:
         # protocol 2: HostConnectionPool, several connections per pool, each of which has to switch
         make_legacy(p, rng)
